@@ -125,6 +125,11 @@ func (i *rwInterceptor) Write(b []byte) (int, error) {
 	if !i.wroteHeader {
 		// if no header has been wrote at this point we aim to return 200
 		i.WriteHeader(http.StatusOK)
+		// The implicit WriteHeader runs the response headers phase: if that interrupted the
+		// transaction, none of the handler's bytes may reach the client.
+		if i.tx.IsInterrupted() {
+			return len(b), nil
+		}
 	}
 
 	if i.tx.IsResponseBodyAccessible() && i.tx.IsResponseBodyProcessable() && !i.wroteBufferedBodyToDownstream {
